@@ -24,7 +24,7 @@ theorem introspect_changes_nothing (s : MState) (q : IntrospectReq) :
 theorem accessVerdict_ok (cfg : Config) (now : Time) (q : IntrospectReq) (st : Store) (r : Req) :
     accessVerdict cfg now q st = .ok r ↔
       ∃ sig, q.token.sig = some sig ∧ alookup st.access sig = some r ∧
-        expiredAt r.sess.expAccess r.requestedAt cfg.atLife now = false ∧ q.token.exact = true ∧
+        accessExpired cfg r now = false ∧ q.token.exact = true ∧
         matchScopes cfg r.grantedScopes q.scopes = true := by
   constructor
   · intro h
@@ -39,19 +39,21 @@ theorem accessVerdict_ok (cfg : Config) (now : Time) (q : IntrospectReq) (st : S
       | some r' =>
         rw [hl] at h
         simp only at h
-        by_cases h1 : expiredAt r'.sess.expAccess r'.requestedAt cfg.atLife now = true
-        · simp [h1] at h
-        · by_cases h2 : q.token.exact = true
+        by_cases h1 : (atCheck1 cfg r' q.token.exact now).1 = true
+        · by_cases h2 : (atCheck2 cfg r' q.token.exact now).1 = true
           · by_cases h3 : matchScopes cfg r'.grantedScopes q.scopes = true
-            · simp only [h1, h2, h3, Bool.false_eq_true, if_false, Bool.not_true, Except.ok.injEq] at h
+            · simp only [h1, h2, h3, Bool.not_true, Bool.false_eq_true, if_false, Except.ok.injEq] at h
               subst h
-              exact ⟨sig, rfl, hl, by simpa using h1, h2, h3⟩
+              obtain ⟨he, hx⟩ := (atChecks_iff cfg r' q.token.exact now).mp ⟨h1, h2⟩
+              exact ⟨sig, rfl, hl, he, hx, h3⟩
             · simp [h1, h2, h3] at h
           · simp [h1, h2] at h
+        · simp [h1] at h
   · rintro ⟨sig, hsig, hl, hexp, hex, hm⟩
+    obtain ⟨h1, h2⟩ := (atChecks_iff cfg r q.token.exact now).mpr ⟨hexp, hex⟩
     unfold accessVerdict
     rw [hsig]
-    simp only [Option.bind_some, hl, hexp, hex, hm, Bool.false_eq_true, if_false, Bool.not_true]
+    simp only [Option.bind_some, hl, h1, h2, hm, Bool.not_true, Bool.false_eq_true, if_false]
 
 /-- **Soundness.** A token reported as an active *access token* has its record in the store under the
     presented signature, was presented as an exact (MAC-verified) copy, has not expired, and covers
@@ -59,7 +61,7 @@ theorem accessVerdict_ok (cfg : Config) (now : Time) (q : IntrospectReq) (st : S
 theorem active_access_token_is_live (s : MState) (q : IntrospectReq) (r : Req)
     (h : (step s (.introspect q)).2.1 = .active "access_token" r) :
     ∃ sig, q.token.sig = some sig ∧ alookup s.ss.store.access sig = some r ∧
-      expiredAt r.sess.expAccess r.requestedAt s.cfg.atLife s.now = false ∧ q.token.exact = true ∧
+      accessExpired s.cfg r s.now = false ∧ q.token.exact = true ∧
       matchScopes s.cfg r.grantedScopes q.scopes = true := by
   rw [introspect_refines_pure] at h
   apply (accessVerdict_ok s.cfg s.now q s.ss.store r).mp
@@ -92,7 +94,7 @@ theorem active_access_token_is_live (s : MState) (q : IntrospectReq) (r : Req)
     scopes is reported active (whatever the hint). -/
 theorem live_access_token_is_reported_active (s : MState) (q : IntrospectReq) (sig : Nat) (r : Req)
     (hsig : q.token.sig = some sig) (hl : alookup s.ss.store.access sig = some r)
-    (hexp : expiredAt r.sess.expAccess r.requestedAt s.cfg.atLife s.now = false) (hex : q.token.exact = true)
+    (hexp : accessExpired s.cfg r s.now = false) (hex : q.token.exact = true)
     (hsc : matchScopes s.cfg r.grantedScopes q.scopes = true) :
     ∃ use r', (step s (.introspect q)).2.1 = .active use r' := by
   rw [introspect_refines_pure]
